@@ -826,6 +826,9 @@ class CharInterp:
         if fn == "str.__new__":
             return self.ev(n.args[1], env, m)
         if fn in ("re.sub", "re.split", "re.findall"):
+            if n.keywords or len(n.args) != (3 if fn == "re.sub" else 2):
+                # flags change what the classes mean (re.ASCII), count / maxsplit what is replaced: not modelled here, so no verdict
+                raise AnalysisError(f"E6: regex call with flags / count / keyword arguments at {m.rel}:{n.lineno}")
             pat = self.ix.const_str(m, n.args[0])
             if pat is None:
                 raise AnalysisError(f"E6: non-constant regex at {m.rel}:{n.lineno}")
